@@ -387,6 +387,60 @@ def run_waits(ctx, desc):
             ctx.inconc(f"wait_for_bootup timeout: {status}", case)
         elif status != "raised" or not isinstance(val, NmtError):
             ctx.violation("wait-for-bootup-no-error", f"no boot-up arrived, wait_for_bootup ended {status} with {val!r}", case)
+        # ---- ordinary heartbeats keep arriving but never a boot-up: the call still fails with NmtError once its time
+        #      is over.  Judged on logical steps: after the deadline has certainly passed, every further heartbeat is
+        #      delivered only when the waiter is parked again; a conformant wait parks at most once more.
+        if rnd < 2:
+            import threading
+            T = 0.15
+            box = {}
+
+            def target():
+                try:
+                    nmt.wait_for_bootup(T)
+                    box["r"] = "returned"
+                except NmtError:
+                    box["r"] = "NmtError"
+                except Exception as exc:  # noqa: BLE001
+                    box["r"] = repr(exc)
+            th = threading.Thread(target=target, daemon=True)
+            n0 = cond.waits
+            th.start()
+            case = {"workload": "waits", "kind": "bootup-busy-node", "timeout": T}
+            ctx.count("wait_cases")
+            ctx.case(("wait-bootup-busy-node",))
+            end = time.time() + 10
+            while cond.waits == n0 and th.is_alive() and time.time() < end:
+                time.sleep(0.0005)
+            seen = time.time()                       # the call started before this moment: its deadline is before seen + T
+            while time.time() <= seen + T + 0.05 and th.is_alive():
+                n = cond.waits
+                rig.ext.send(0x700 + K, b"\x05")
+                cond.reentered(n, 0.2)
+                time.sleep(0.01)
+            n_after = cond.waits
+            for _ in range(8):
+                if not th.is_alive():
+                    break
+                n = cond.waits
+                rig.ext.send(0x700 + K, b"\x05")
+                if not cond.reentered(n, 1.0):
+                    th.join(1.0)
+            # (judged while the heartbeats are still coming: a wait that restarts with every message ends as soon as they stop)
+            parked_again = cond.waits - n_after
+            still_waiting = th.is_alive() and cond.waiting.is_set()
+            if not still_waiting:
+                th.join(1.0)
+            if still_waiting and parked_again >= 3:
+                ctx.violation("wait-for-bootup-outlives-its-time-out", f"wait_for_bootup({T}) parked {parked_again} more times after its time was over "
+                              "while ordinary heartbeats kept arriving, and has not raised NmtError", case)
+                for _ in range(3):                   # let the thread go: a boot-up ends it
+                    rig.ext.send(0x700 + K, b"\x00")
+                    th.join(0.5)
+            elif th.is_alive():
+                ctx.inconc("wait_for_bootup busy node: still waiting but not re-parking", case)
+            elif box.get("r") != "NmtError":
+                ctx.violation("wait-for-bootup-no-error", f"no boot-up arrived (only ordinary heartbeats), wait_for_bootup ended with {box.get('r')!r}", case)
         rig.bus.close()
     ctx.count("view_states_compared", 0)
     report_log(ctx, log)
